@@ -8,6 +8,7 @@ import (
 	"io"
 	"net"
 	"net/http"
+	"regexp"
 	"sort"
 	"strconv"
 	"strings"
@@ -73,6 +74,76 @@ type Rec struct {
 	MaxHeld  int
 	Fed      int   // bytes fed so far (maintained by Sess.Feed)
 	DoneAt   []int // value of Fed when each OnComplete fired
+
+	// direct oracle c08-framing-rejected: the framing fields of the message under construction, judged by
+	// FramingRule when the parser reports OnContentLength (i.e. has accepted the framing metadata)
+	curHdrs   [][2]string
+	pendingTr string   // trailer-rule verdict to be raised by the next callback after OnContentLength
+	Framing   []string // violations found (drained by the executor)
+}
+
+var clRe = regexp.MustCompile(`^[+-]?[0-9]+$`)
+
+// FramingRule is the property's rule for framing metadata, stated on the header fields the parser reported
+// (a Go twin of the Lean `endOfHeaders`/`addTrailerKeys` and of the C08 framing theorems):
+//
+//	Transfer-Encoding present  => exactly one field line, value "chunked" (case-insensitive, OWS trimmed), else reject
+//	else Content-Length present => the first value, trailing spaces removed, is [+-]?DIGIT+ with 0 <= n < 2^63, else
+//	                               reject (an empty first value counts as absent: documented leniency)
+//	chunked and Trailer present => no announced name is Transfer-Encoding, Trailer or Content-Length, else reject
+//
+// It returns (reason to reject or "", reason to reject because of the trailer or "", expected OnContentLength value).
+func FramingRule(hdrs [][2]string) (reject, rejectTrailer string, wantCL int64) {
+	var te, cl, tr []string
+	for _, h := range hdrs {
+		switch h[0] {
+		case "Transfer-Encoding":
+			te = append(te, h[1])
+		case "Content-Length":
+			cl = append(cl, h[1])
+		case "Trailer":
+			tr = append(tr, h[1])
+		}
+	}
+	wantCL = -1
+	chunked := false
+	if len(te) > 0 {
+		if len(te) != 1 {
+			return fmt.Sprintf("repeated Transfer-Encoding %q", te), "", -1
+		}
+		if !strings.EqualFold(strings.Trim(te[0], " \t"), "chunked") {
+			return fmt.Sprintf("unsupported Transfer-Encoding %q", te[0]), "", -1
+		}
+		chunked = true
+	} else if len(cl) > 0 && cl[0] != "" {
+		v := strings.TrimRight(cl[0], " ")
+		if !clRe.MatchString(v) {
+			return fmt.Sprintf("non-numeric Content-Length %q", cl[0]), "", -1
+		}
+		n, err := strconv.ParseInt(v, 10, 64)
+		if err != nil || n < 0 || n >= 1<<62 {
+			return fmt.Sprintf("negative or overflowing Content-Length %q", cl[0]), "", -1
+		}
+		wantCL = n
+	}
+	if chunked {
+		for _, v := range tr {
+			for _, k := range strings.Split(v, ",") {
+				switch http.CanonicalHeaderKey(strings.Trim(k, " \t")) {
+				case "Transfer-Encoding", "Trailer", "Content-Length":
+					return "", fmt.Sprintf("forbidden trailer name announced in %q", v), wantCL
+				}
+			}
+		}
+	}
+	return "", "", wantCL
+}
+
+func (r *Rec) raiseTrailer() {
+	if r.pendingTr != "" {
+		r.Framing = append(r.Framing, "accepted although "+r.pendingTr)
+		r.pendingTr = ""
+	}
 }
 
 func Hx(s string) string { return lp.Hex([]byte(s)) }
@@ -105,14 +176,24 @@ func (r *Rec) OnStatus(p *nbhttp.Parser, code int, s string) {
 	r.Inner.OnStatus(p, code, s)
 }
 func (r *Rec) OnHeader(p *nbhttp.Parser, k, v string) {
+	r.curHdrs = append(r.curHdrs, [2]string{k, v})
 	r.Evs = append(r.Evs, "header "+Hx(k)+" "+Hx(v))
 	r.Inner.OnHeader(p, k, v)
 }
 func (r *Rec) OnContentLength(p *nbhttp.Parser, n int) {
+	rej, rejTr, want := FramingRule(r.curHdrs)
+	if rej != "" {
+		r.Framing = append(r.Framing, "accepted although "+rej)
+	} else if int64(n) != want {
+		r.Framing = append(r.Framing, fmt.Sprintf("content length reported %d, framing fields say %d", n, want))
+	}
+	r.pendingTr = rejTr
+	r.curHdrs = nil
 	r.Evs = append(r.Evs, "cl "+strconv.Itoa(n))
 	r.Inner.OnContentLength(p, n)
 }
 func (r *Rec) OnBody(p *nbhttp.Parser, d []byte) error {
+	r.raiseTrailer()
 	err := r.Inner.OnBody(p, d)
 	if err == nil {
 		r.Held += len(d)
@@ -124,10 +205,13 @@ func (r *Rec) OnBody(p *nbhttp.Parser, d []byte) error {
 	return err
 }
 func (r *Rec) OnTrailerHeader(p *nbhttp.Parser, k, v string) {
+	r.raiseTrailer()
 	r.Evs = append(r.Evs, "trailer "+Hx(k)+" "+Hx(v))
 	r.Inner.OnTrailerHeader(p, k, v)
 }
 func (r *Rec) OnComplete(p *nbhttp.Parser) {
+	r.raiseTrailer()
+	r.curHdrs = nil
 	r.Evs = append(r.Evs, "complete")
 	r.Held = 0
 	r.DoneAt = append(r.DoneAt, r.Fed)
